@@ -37,6 +37,13 @@ Section C18.
     (get_right leqb b k = Some v <-> get_left reqb b v = Some k).
   Proof. exact (lookups_agree leqb reqb). Qed.
 
+  (* inserting a pair that is already live displaces nothing: every lookup from either side is as before *)
+  Theorem C18_reinsert_live_pair_is_identity : forall b k v, Bij leqb reqb b -> get_right leqb b k = Some v ->
+    forall k' v',
+      (get_right leqb (insert_left leqb reqb b k v) k' = Some v' <-> get_right leqb b k' = Some v') /\
+      (get_left reqb (insert_left leqb reqb b k v) v' = Some k' <-> get_left reqb b v' = Some k').
+  Proof. exact (reinsert_live_pair leqb reqb leqb_spec reqb_spec). Qed.
+
   Theorem C18_len_iter_items : forall b, Bij leqb reqb b ->
     len b = length (items b) /\ iter b = map fst (items b) /\ NoDup (iter b) /\ NoDup (map snd (items b)).
   Proof. exact (len_iter_items leqb reqb leqb_spec). Qed.
@@ -91,6 +98,15 @@ Example C18_premises_satisfiable :
   NoDup (map fst [(0, 5); (1, 0)]%Z) /\ init Z.eqb [(0, 5); (1, 0)]%Z <> None.
 Proof. split; [repeat constructor; cbn; intuition discriminate | discriminate]. Qed.
 
+(* non-vacuity of C18_reinsert_live_pair_is_identity: (0, 5) is live, linking it again leaves the map as it was *)
+Example C18_reinsert_example :
+  let b := {| fwd := [(0, 5); (1, 0)]%Z; bck := [(5, 0); (0, 1)]%Z |} in
+  get_right Z.eqb b 0%Z = Some 5%Z /\
+  map (get_right Z.eqb (insert_left Z.eqb Z.eqb b 0 5)%Z) [0; 1; 2]%Z = map (get_right Z.eqb b) [0; 1; 2]%Z /\
+  map (get_left Z.eqb (insert_left Z.eqb Z.eqb b 0 5)%Z) [0; 5; 2]%Z = map (get_left Z.eqb b) [0; 5; 2]%Z /\
+  len (insert_left Z.eqb Z.eqb b 0 5)%Z = len b.
+Proof. vm_compute. repeat split. Qed.
+
 (* non-vacuity of the world theorems: two maps built from one seed with falsy keys, the first one and the seed
    are then modified; the second map still holds the seed's original pairs *)
 Example C18_world_example :
@@ -106,6 +122,7 @@ Print Assumptions C18_refines_live_pairs.
 Print Assumptions C18_step_refines.
 Print Assumptions C18_insert_displaces_exactly.
 Print Assumptions C18_lookups_agree.
+Print Assumptions C18_reinsert_live_pair_is_identity.
 Print Assumptions C18_len_iter_items.
 Print Assumptions C18_items_are_live_pairs.
 Print Assumptions C18_init_rejects_iff_not_injective.
